@@ -77,6 +77,20 @@ RAISERS = [
     ("reader-macro-multiline", "#zq-ratio 1\n      0", "ZeroDivisionError"),
     ("reader-macro-deep", "#zq-deep \"s\"", "TypeError"),
     ("quote-sugar", "(zq_id '(a b) (/ 1 0))", "ZeroDivisionError"),
+    # inline Python whose text has several lines although the Hy string literal sits on one line (escaped newlines)
+    ("pys-escaped-newlines", "(pys \"zq_a = 1\\nzq_b = 2\\nzq_c = zq_a / 0\")", "ZeroDivisionError"),
+    ("py-escaped-newlines", "(py \"(1 +\\n 2 +\\n 1/0)\")", "ZeroDivisionError"),
+    ("pys-real-newlines", "(pys \"zq_a = 1\nzq_c = zq_a / 0\")", "ZeroDivisionError"),
+    # a destructuring let whose value has the wrong shape: the unpacking itself raises
+    ("let-destructure-list", "(let [[zq_a zq_b] [1]] zq_a)", "ValueError"),
+    ("let-destructure-multiline", "(let [[zq_a\n       zq_b] [1 2 3]]\n    zq_a)", "ValueError"),
+    ("let-destructure-tuple", "(let [#(zq_a zq_b) 5] zq_a)", "TypeError"),
+    ("let-destructure-star", "(let [[zq_a #* zq_b] 5] zq_a)", "TypeError"),
+    ("setv-destructure", "(setv [zq_a zq_b] [1])", "ValueError"),
+    # an f-string replacement field built by a macro: the formatting itself raises
+    ("macro-fstring-spec", "(zq-fs 5)", "ValueError"),
+    ("macro-fstring-spec-multiline", "(zq-fs\n    5)", "ValueError"),
+    ("fstring-spec", "f\"{5 :zz}\"", "ValueError"),
 ]
 
 PRELUDE_PARTS = [
@@ -84,6 +98,7 @@ PRELUDE_PARTS = [
     ("zq-wrap", "(defmacro zq-wrap [x] `(do ~x))\n"),
     ("zq-plus", "(defmacro zq-plus [x] `(let [t# 1] (+ t# ~x)))\n"),
     ("zq-deffn", "(defmacro zq-deffn [] '(defn zq-made [] (/ 1 0)))\n"),
+    ("zq-fs", "(defmacro zq-fs [x] `f\"{~x :zz}\")\n"),
     ("zq-ratio", "(defreader zq-ratio\n  (setv a (.parse-one-form &reader)\n        b (.parse-one-form &reader))\n"
                  "  `(do\n     (setv zq-last-ratio (/ ~a ~b))\n     zq-last-ratio))\n"),
     ("zq-deep", "(defreader zq-deep\n  (setv a (.parse-one-form &reader))\n"
@@ -426,6 +441,14 @@ def has_kw_pattern(hy, t):
     return isinstance(t, m.Sequence) and any(has_kw_pattern(hy, c) for c in t)
 
 
+def macro_fstring_matcher(rec, params):
+    """an f-string replacement field built inside a macro expansion keeps no position (FComponent.replace discards the
+    positioned copy that Sequence.replace returns): a formatting error is reported at line 1"""
+    key = rec.get("key", "")
+    return key.startswith("traceback-line-outside-span:") and key.split(":")[-1].startswith("macro-fstring-spec") \
+        and rec.get("observed", {}).get("innermost_module_frame_lineno") == 1
+
+
 def kw_pattern_matcher(rec, params):
     """nodes of the hy.models.Keyword lookup that compile_pattern emits for a keyword pattern carry line 1"""
     key = rec.get("key", "")
@@ -476,6 +499,7 @@ def run(chk):
         "the innermost traceback frame `for the compiled module` is the last frame whose filename is the module's",
     ]
     chk.matchers["c17_match_keyword_pattern"] = kw_pattern_matcher
+    chk.matchers["c17_macro_fstring"] = macro_fstring_matcher
     thorough = chk.tier == "thorough"
     ok = chk.prove("Props/C17.v", ["Props/C17.vo"], [pos_tables.translate])
     hy = vlib.use_repo_in_process()
